@@ -173,15 +173,21 @@ structure Cfg where
   maximumTtl : Int
   deriving Repr
 
+/-- `expireTime := now.Add(ttl)` (instants and durations in nanoseconds) -/
+abbrev expireAt (now ttl : Int) : Int := now + ttl
+
+/-- `time.Until(t)` read at instant `now` -/
+abbrev timeUntil (t now : Int) : Int := t - now
+
 /-- cacheCtl.Store with the memory backend. `now` = the `time.Now()` taken in Store; `delay` = the time that
     passes until MemoryCache.Store evaluates `time.Until(expireTime)` and otter reads its clock. -/
 def cacheStore (clock : Nat → Nat) (cfg : Cfg) (mem : Mem) (k : Nat) (resp : Option Msg) (now delay id : Nat) : Mem :=
   match store cfg.hasBackend resp cfg.maximumTtl with
   | none => mem
   | some c =>
-    let expire : Int := now + c.ttl
+    let expire : Int := expireAt now c.ttl
     let e : Entry := ⟨now, expire.toNat, 0, c.msg, id⟩
-    let untilExp : Int := expire - ((now + delay : Nat) : Int)      -- time.Until(expireTime)
+    let untilExp : Int := timeUntil expire ((now + delay : Nat) : Int)      -- time.Until(expireTime)
     otterSet mem (clock (now + delay)) k e untilExp c.setNX
 
 /-- Get's `uint32(time.Since(storedTime).Seconds())` -/
